@@ -20,8 +20,9 @@ decorated classes; configurations incl. `warning_cls_on_decorator_exception`) ar
   * checked against the property's clauses directly (oracle, from the generator's spec alone).
 A decoration that raises is part of the property: both routes must raise the same exception at the same
 member and leave the same half-decorated class (members before it wrapped, the rest untouched, class not
-marked); under the warning option the member that cannot be decorated is left as it was with ONE warning
-naming it and every other member is decorated as if it were absent — on both routes.
+marked); under the warning option the FUNCTION that cannot be decorated (a plain method, the wrappee of a
+classmethod / staticmethod, one accessor of a property) is left as it was with ONE warning naming it and every
+other function is decorated as if it were absent — on both routes.
 `python -O` cases run in a fresh `-O` interpreter (harness.impl.c13_run).
 """
 from __future__ import annotations
@@ -40,20 +41,6 @@ from ..impl import c13_run as R
 MODULE = 'BearVerif.Props.C13'
 PROP_FILE = LEAN / 'BearVerif/Props/C13.lean'
 CONFS = ['def', 'o0', 'on', 'nocolor', 'warn']
-# Failure keys of the unchanged tree that this check passes over for now (reported to the lead on 2026-09-23,
-# not yet in known_findings.json): under `warning_cls_on_decorator_exception` a property of which ONE accessor
-# cannot be decorated is left unchecked as a whole (`beartype_descriptor_decorator_builtin_property` decorates
-# getter, setter, deleter with `beartype_func` and any exception skips the whole property), whereas decorating
-# the accessor functions one by one — and what the same code does for the wrappee of a classmethod /
-# staticmethod — loses only the accessor that cannot be decorated.
-PASS_OVER = {
-    'C13:prop-accessors:warn:K{prop[get:chk,set:bad]}',
-    'C13:prop-accessors:warn:K{prop[get:bad,set:chk]}',
-    'C13:prop-accessors:warn:K{prop[get:chk,del:bad]}',
-    'C13:prop-accessors:warn:K{prop[get:bad,del:chk]}',
-    'C13:prop-accessors:warn:K{prop[get:none,set:chk,del:bad]}',
-    'C13:prop-accessors:warn:K{prop[get:none,set:bad,del:chk]}',
-}
 
 
 class InvalidCase(Exception):
@@ -456,30 +443,18 @@ def evaluate(case: dict) -> dict:
         return res
     if exc_name(ea) != exc_name(eb):
         broken.append(('routes-differ', f'class decoration raised {exc_name(ea)}, by-hand decoration {exc_name(eb)}'))
-    # properties of which only SOME accessor cannot be decorated (warning option) are compared apart
-    part = R.partial_props(spec, conf_label, False)
-
-    def split_calls(calls):
-        inside = [c for c in calls if any(c[0].startswith(p + ' ') for p in part)]
-        return [c for c in calls if c not in inside], inside
-
-    def split_markers(mm):
-        return [x for x in mm if x[0] not in part], [x for x in mm if x[0] in part]
+    if len(wa) != len(wb):
+        broken.append(('routes-differ', f'class decoration issued {len(wa)} warning(s), by-hand decoration {len(wb)}'))
     ca, cb = R.calls_of(KA, spec), R.calls_of(KB, spec)
     res['calls'] = ca
     exp = R.expected_calls(spec, conf_label, False, pl=pl)
-    (ca_o, ca_p), (cb_o, cb_p) = split_calls(ca), split_calls(cb)
-    (ma_o, ma_p), (mb_o, mb_p) = split_markers(marker_map(KA, spec)), split_markers(marker_map(KB, spec))
-    if ca_o != cb_o:
-        d = [(x, y) for x, y in zip(ca_o, cb_o) if x != y][:3]
+    ma, mb = marker_map(KA, spec), marker_map(KB, spec)
+    if ca != cb:
+        d = [(x, y) for x, y in zip(ca, cb) if x != y][:3]
         broken.append(('routes-differ', f'verdicts differ between class decoration and by-hand decoration: {d}'))
-    if ma_o != mb_o:
-        d = [(x, y) for x, y in zip(ma_o, mb_o) if x != y][:2]
+    if ma != mb:
+        d = [(x, y) for x, y in zip(ma, mb) if x != y][:2]
         broken.append(('routes-differ', f'kinds/markers/facts differ between the two routes: {d}'))
-    if ca_p != cb_p or ma_p != mb_p:
-        d = [(x, y) for x, y in zip(ca_p, cb_p) if x != y][:2] or [(x, y) for x, y in zip(ma_p, mb_p) if x != y][:1]
-        broken.append(('prop-accessors', 'a property with one undecoratable accessor is left unchecked as a whole by the class '
-                                         f'decorator, its other accessors are wrapped when decorated by hand (class, hand): {d}'))
     if ca != exp:
         d = [(x, y) for x, y in zip(ca, exp) if x != y][:3]
         broken.append(('verdicts', f'call verdicts (real, expected): {d}'))
@@ -495,7 +470,7 @@ def evaluate(case: dict) -> dict:
         w = f"standalone {s['wrap']} {s['name']}"
         fails = R.fn_fails(s, conf_label, False)
         x_raise = fails and conf_label != 'warn'
-        x_warns = [('Property' if s['wrap'] == 'prop' else s['name'] + '()')] if fails and conf_label == 'warn' else []
+        x_warns = [s['name'] + '()'] if fails and conf_label == 'warn' else []
         r1, e1, w1 = guarded(lambda: deco(obj))
         if not check_outcome(f'decorating the {w}', e1, w1, x_raise, x_warns, broken):
             continue
@@ -520,7 +495,7 @@ def evaluate(case: dict) -> dict:
                 broken.append(('not-wrapped' if f1 is f else 'wrapped-original', f'{w}: expected a wrapper exposing the original as __wrapped__'))
             if not exp_new and f1 is not f:
                 broken.append(('noop-identity', f'{w}: a no-op case ({shape_fn(s)}, conf {conf_label}) returned another function object'))
-            if fails and s['wrap'] in ('func', 'prop') and r1 is not obj:
+            if fails and s['wrap'] == 'func' and r1 is not obj:
                 broken.append(('noop-identity', f'{w}: cannot be decorated, yet another object came back'))
             if f2 is not f1:
                 broken.append(('idempotent', f'{w}: decorating the result again returned another function object'))
@@ -732,7 +707,6 @@ def explore(ck: Check, n: int, seed: int, n_opt: int) -> Explore:
     results, kinds, verdict_kinds, confs, depths = [], {}, {}, {}, {}
     shapes, nontrivial = set(), set()
     reported: set = set()
-    passed: set = set()
     outcomes = {'completes': 0, 'raises': 0, 'warns': 0}
 
     def report(case, clause, detail):
@@ -745,11 +719,7 @@ def explore(ck: Check, n: int, seed: int, n_opt: int) -> Explore:
         except RecursionError:
             details = ['decorating the class raised RecursionError']
         key = f'C13:{clause}:{shape_case(small)}'
-        if key in reported or key in passed:
-            return
-        if key in PASS_OVER:
-            passed.add(key)
-            ck.log(f'PASSED-OVER: property=C13 {details[0][:200]} [key={key}]')
+        if key in reported:
             return
         reported.add(key)
         ex.failures.append(Failure(key=key, what=f'{details[0]}  [shape {shape_case(small)}]',
@@ -805,8 +775,7 @@ def explore(ck: Check, n: int, seed: int, n_opt: int) -> Explore:
     ex.distinct_nontrivial = len(nontrivial)
     ex.extra.update({'distinct_shapes': len(shapes), 'member_kind_distribution': kinds, 'conf_distribution': confs,
                      'nesting_depth_distribution': depths, 'call_verdict_distribution': verdict_kinds,
-                     'optimized_cases': min(n_opt, len(cases)), 'decoration_outcome_distribution': outcomes,
-                     'passed_over_keys': sorted(passed)})
+                     'optimized_cases': min(n_opt, len(cases)), 'decoration_outcome_distribution': outcomes})
     ex.samples = [{'shape': shape_case(c), 'source': R.render_case(c)[:1500]} for c in cases[:2]]
     return ex
 
@@ -864,8 +833,6 @@ def main(ck: Check) -> int:
                     'conf.is_pep557_fields is False (default): dataclass field checking monkey-patches __setattr__ beyond the members',
                     'a decoration raises only through a hint rejected by code generation (generated: `NoReturn` on a parameter), nothing else '
                     'raises between two members; blacklist / jaxtyping / sphinx disjuncts of is_func_unbeartypeable are false',
-                    'under warning_cls_on_decorator_exception a property is all-or-nothing: keys in PASS_OVER (by-hand decoration of the '
-                    'accessor functions loses only the undecoratable accessor)',
                     'by-value class dictionaries: the same class object bound twice in one body is treated as opaque the second time',
                     'qualified-name components contain no dot, so "startswith(qualname + \'.\')" is "proper prefix of the component list"',
                     'verdicts of calls come from the real wrappers; which hint accepts which value is C01/C02, here only int/str/list/Optional/float/tuple samples',
